@@ -553,6 +553,256 @@ func render(r *term.Rng, toks []string, plain bool) []term.T {
 	return out
 }
 
+// ---- systematic layouts (C14 layout theorem: Proofs/GcsLayout.v, follow_ok) ----
+
+func isDigitByte(c byte) bool { return '0' <= c && c <= '9' }
+
+// tokClass: 'w' word, 'n' number, 's' string, 'o' operator / punctuation
+func tokClass(t string) byte {
+	switch t {
+	case ";", "=", ",", "(", ")", "[", "]", "{", "}", ":", "+", "-", "*", "/", "!", "&&", "||", "==", "!=", "<>",
+		">", ">=", "<", "<=":
+		return 'o'
+	}
+	if t[0] == '"' {
+		return 's'
+	}
+	if isDigitByte(t[0]) || (len(t) > 1 && (t[0] == '-' || t[0] == '.') && isDigitByte(t[1])) {
+		return 'n'
+	}
+	return 'w'
+}
+
+// followOK mirrors follow_ok of Proofs/GcsLayout.v: may byte c (0 = end of file) directly follow token t?
+func followOK(t string, c byte, eof bool) bool {
+	switch tokClass(t) {
+	case 'w':
+		if eof {
+			return true
+		}
+		return strings.IndexByte(" \t\n\r.,|:)(+=><&!;[]", c) >= 0
+	case 'n':
+		if eof {
+			return true
+		}
+		if isDigitByte(c) {
+			return false
+		}
+		return strings.IndexByte(t, '.') >= 0 || c != '.'
+	case 's':
+		return true
+	}
+	if eof {
+		return true
+	}
+	switch t {
+	case "=", ">", "!":
+		return c != '='
+	case "<":
+		return c != '=' && c != '>'
+	case "/":
+		return c != '/'
+	case "-":
+		return !isDigitByte(c)
+	}
+	return true
+}
+
+// renderWith: sep(i) proposes the separator before token i (i = len(toks): after the last token); when the
+// proposal may not directly follow the previous token a space is put in front of it
+func renderWith(toks []string, lead string, sep func(i int) string) []term.T {
+	out := []term.T{}
+	if lead != "" {
+		out = append(out, chunk(true, lead))
+	}
+	for i, t := range toks {
+		if i > 0 {
+			s := sep(i)
+			next := s + t
+			if !followOK(toks[i-1], next[0], false) {
+				s = " " + s
+			}
+			if s != "" {
+				out = append(out, chunk(true, s))
+			}
+		}
+		out = append(out, chunk(false, t))
+	}
+	if len(toks) > 0 {
+		s := sep(len(toks))
+		if s != "" && !followOK(toks[len(toks)-1], s[0], false) {
+			s = " " + s
+		}
+		if s != "" {
+			out = append(out, chunk(true, s))
+		}
+	}
+	return out
+}
+
+// systematicLayout: the same tokens under one of the layouts the layout theorem quantifies over
+func systematicLayout(r *term.Rng, toks []string) []term.T {
+	switch r.Intn(8) {
+	case 0: // tokens glued wherever the lexer keeps them apart without a separator
+		return renderWith(toks, "", func(int) string { return "" })
+	case 1: // a '#' comment at every token boundary, no trailing newline after the last one
+		return renderWith(toks, "#lead\n", func(i int) string {
+			if i == len(toks) {
+				return "# end ; } ) ]"
+			}
+			return "# c ; { \" \n"
+		})
+	case 2: // a '//' comment at every token boundary
+		return renderWith(toks, "// lead\n", func(i int) string {
+			if i == len(toks) {
+				return "// end"
+			}
+			return "// c # \" ) \n"
+		})
+	case 3: // CR LF everywhere
+		return renderWith(toks, "\r\n", func(int) string { return "\r\n" })
+	case 4: // tabs everywhere, no trailing newline
+		return renderWith(toks, "\t", func(i int) string {
+			if i == len(toks) {
+				return ""
+			}
+			return "\t"
+		})
+	case 5: // both kinds of comments alternating, CR LF line ends
+		return renderWith(toks, "", func(i int) string {
+			if i%2 == 0 {
+				return "#x\r\n"
+			}
+			return "//y\r\n\t"
+		})
+	case 6: // random choice per boundary among: nothing, comment without leading space, CR LF, tab
+		return renderWith(toks, term.Pick(r, leadPool), func(i int) string {
+			return term.Pick(r, []string{"", "", "#c\n", "//c\n", "\r\n", "\t", "#\n//\n", " "})
+		})
+	}
+	// a comment directly after the previous token only where the lexer allows it, then glued
+	return renderWith(toks, "", func(i int) string {
+		if i%3 == 0 {
+			return "//k\n"
+		}
+		return ""
+	})
+}
+
+// duplicateProgram: tokens of a program that holds a switch with two defaults or a map literal with
+// a repeated field name (both are rejected since the parser repairs), possibly nested
+func (g gctx) duplicateProgram() []string {
+	var inner []string
+	if g.r.Bool() {
+		inner = []string{"switch"}
+		if g.r.Bool() {
+			inner = append(inner, g.atom().toks...)
+		}
+		inner = append(inner, "{")
+		entry := func(def bool) {
+			if def {
+				inner = append(inner, "default", ":")
+			} else {
+				inner = cat(inner, []string{"case"}, g.atom().toks, []string{":"})
+			}
+			for _, n := range g.nodes(1, 2) {
+				inner = append(inner, n.toks...)
+			}
+		}
+		for i := g.r.Intn(2); i > 0; i-- {
+			entry(false)
+		}
+		entry(true)
+		for i := g.r.Intn(2); i > 0; i-- {
+			entry(false)
+		}
+		entry(true)
+		for i := g.r.Intn(2); i > 0; i-- {
+			entry(g.r.Chance(1, 4))
+		}
+		inner = append(inner, "}")
+	} else {
+		k := g.ident()
+		ents := [][]string{cat([]string{k, "="}, g.expr(1).toks)}
+		for i := g.r.Intn(3); i > 0; i-- {
+			if g.r.Bool() {
+				ents = append(ents, g.atom().toks)
+			} else {
+				ents = append(ents, cat([]string{g.ident(), "="}, g.atom().toks))
+			}
+		}
+		ents = append(ents, cat([]string{k, "="}, g.expr(1).toks))
+		// the two entries with the same name at random places
+		for i := len(ents) - 1; i > 0; i-- {
+			j := g.r.Intn(i + 1)
+			ents[i], ents[j] = ents[j], ents[i]
+		}
+		m := []string{"["}
+		for i, e := range ents {
+			if i > 0 {
+				m = append(m, ",")
+			}
+			m = append(m, e...)
+		}
+		m = append(m, "]")
+		switch g.r.Intn(3) {
+		case 0:
+			inner = cat([]string{"let", g.ident(), "="}, m, []string{";"})
+		case 1:
+			inner = cat([]string{g.ident(), "("}, m, []string{")", ";"})
+		default:
+			inner = cat(m, []string{";"})
+		}
+	}
+	switch g.r.Intn(3) {
+	case 0:
+		return inner
+	case 1:
+		return cat([]string{"if", g.ident(), "{"}, inner, []string{"}"})
+	}
+	return cat(g.node(1).toks, []string{"fn", g.ident(), "(", ")", "{"}, inner, []string{"}"})
+}
+
+// mapFnProgram: a small program built around map literals and function literals (for the
+// all-single-token-deletions cases of the new forms)
+func (g gctx) mapFnProgram() gx {
+	fn := gFuncLit(g.params(), gBlock([]gx{nStmt(sReturn(g.atom()), true)}))
+	fs := []field{{g.ident(), fn}}
+	if g.r.Bool() {
+		k := g.ident()
+		if k != fs[0].key {
+			fs = append(fs, field{k, g.atom()})
+		}
+	}
+	arr := []gx{}
+	for i := g.r.Intn(3); i > 0; i-- {
+		arr = append(arr, g.atom())
+	}
+	m := gMap(arr, fs)
+	var first gx
+	switch g.r.Intn(4) {
+	case 0:
+		first = nStmt(sLet(g.ident(), m), true)
+	case 1:
+		first = nExpr(gCall(gIdent(g.ident()), []gx{m, gFuncLit(g.params(), gBlock(nil))}))
+	case 2:
+		first = nExpr(gCall(gFuncLit(nil, gBlock([]gx{nExpr(m)})), nil))
+	default:
+		first = nStmt(sIf(gMap(nil, nil), gBlock([]gx{nStmt(sAssign(g.ident(), m), true)}), sNil()), false)
+	}
+	nodes := []gx{first}
+	if g.r.Bool() {
+		nodes = append(nodes, nExpr(gMap([]gx{gMap(nil, nil), g.atom()}, nil)))
+	}
+	toks := []string{}
+	ts := []term.T{}
+	for _, x := range nodes {
+		toks = append(toks, x.toks...)
+		ts = append(ts, x.t)
+	}
+	return gx{t: term.C("Block", term.L(ts...)), toks: toks}
+}
+
 // ---- gcstree ----
 
 var treeQueue []term.T // pending deletion cases of the current small program
@@ -571,7 +821,37 @@ func genTree(r *term.Rng, idx int) term.T {
 		treeQueue = treeQueue[1:]
 		return c
 	}
-	switch r.Intn(10) {
+	switch r.Intn(15) {
+	case 14:
+		// a second default in a switch / a repeated field name in a map literal: rejected (no expected tree)
+		return mkInput(nil, render(r, g.duplicateProgram(), r.Bool()))
+	case 10, 11:
+		// the layouts of the layout theorem: glued tokens, comments of both kinds at every boundary,
+		// CR LF, tabs, no newline at the end
+		p := g.program(1+r.Intn(4), 3)
+		return mkInput(term.Some(p.t), systematicLayout(r, p.toks))
+	case 12:
+		// map and function literals, and queued every single-token deletion (brackets, commas, '=',
+		// `fn`, terminators, ...) under plain, random or systematic layouts
+		p := g.mapFnProgram()
+		if len(p.toks) <= 48 {
+			for i := range p.toks {
+				del := append(append([]string{}, p.toks[:i]...), p.toks[i+1:]...)
+				switch r.Intn(3) {
+				case 0:
+					treeQueue = append(treeQueue, mkInput(nil, render(r, del, true)))
+				case 1:
+					treeQueue = append(treeQueue, mkInput(nil, render(r, del, false)))
+				default:
+					treeQueue = append(treeQueue, mkInput(nil, systematicLayout(r, del)))
+				}
+			}
+		}
+		return mkInput(term.Some(p.t), systematicLayout(r, p.toks))
+	case 13:
+		// one statement with map / function literals under every systematic layout in turn
+		p := g.mapFnProgram()
+		return mkInput(term.Some(p.t), systematicLayout(r, p.toks))
 	case 0, 1, 2:
 		// a small program and, queued, every single-token deletion of it
 		p := g.program(2+r.Intn(2), 2)
